@@ -252,9 +252,56 @@ func FromRat(r *big.Rat) Decimal {
 		return zero(false)
 	}
 
+	neg := num.Sign() < 0
 	denom := r.Denom()
 
-	return FromInt(num).Quo(FromInt(denom))
+	// Scale the fraction by a power of ten so that its integer quotient has
+	// between 36 and 39 digits: enough to round correctly, and it still fits
+	// into 128 bits. 30103/100000 approximates log10(2).
+	exp := 37 - (num.BitLen()-denom.BitLen())*30103/100000
+
+	n := new(big.Int).Abs(num)
+	d := denom
+
+	if exp > 0 {
+		n.Mul(n, new(big.Int).Exp(big.NewInt(10), big.NewInt(int64(exp)), nil))
+	} else if exp < 0 {
+		d = new(big.Int).Exp(big.NewInt(10), big.NewInt(int64(-exp)), nil)
+		d.Mul(d, denom)
+	}
+
+	rem := new(big.Int)
+	n.QuoRem(n, d, rem)
+
+	trunc := int8(0)
+	if rem.Sign() != 0 {
+		trunc = 1
+	}
+
+	var sig uint128
+
+	b := n.Bits()
+	for i := len(b) - 1; i >= 0; i-- {
+		sig = sig.lsh(bits.UintSize)
+		sig = sig.or64(uint64(b[i]))
+	}
+
+	// The value is now sig × 10**-exp.
+	if -exp > maxUnbiasedExponent+39 {
+		return inf(neg)
+	}
+
+	if -exp < minUnbiasedExponent-39 {
+		return zero(neg)
+	}
+
+	sig, exp16 := DefaultRoundingMode.reduce128(neg, sig, int16(exponentBias-exp), trunc)
+
+	if exp16 > maxBiasedExponent {
+		return inf(neg)
+	}
+
+	return compose(neg, sig, exp16)
 }
 
 // FromUint32 converts i into a Decimal.
